@@ -30,6 +30,7 @@ type TreeOpts struct {
 	Dir      string
 	Ext      string
 	Depth    int
+	NoBig    bool
 }
 
 func (t *Tree) path(name string) string {
@@ -64,7 +65,7 @@ func GenTree(r *Rng, o TreeOpts) *Tree {
 	if o.Depth == 0 {
 		o.Depth = 2
 	}
-	base := &Gen{R: r, ObjBias: o.ObjBias, FailBias: 0, Funcs: o.Funcs}
+	base := &Gen{R: r, ObjBias: o.ObjBias, FailBias: 0, Funcs: o.Funcs, NoBig: o.NoBig}
 	t.Data = base.GenData()
 	dataVars := append([]gvar{}, base.vars...)
 
@@ -77,7 +78,7 @@ func GenTree(r *Rng, o TreeOpts) *Tree {
 	t.add("components/badge", "component", `<span class="badge">BADGE {{ label }}</span>`)
 
 	// layout
-	lg := &Gen{R: r, Prefix: "LAY", vars: append([]gvar{}, dataVars...), ObjBias: o.ObjBias, Funcs: o.Funcs}
+	lg := &Gen{R: r, Prefix: "LAY", vars: append([]gvar{}, dataVars...), ObjBias: o.ObjBias, Funcs: o.Funcs, NoBig: o.NoBig}
 	lay := "<html><head><title>@reserve(\"title\")</title></head>\n<body>" + lg.Stmts(r.Range(1, 2), 1) +
 		"\n<main>@reserve(\"content\")</main>\n<aside>@reserve(\"side\")</aside>" + lg.Stmts(1, 0) + "</body></html>"
 	t.add("layouts/main", "layout", lay)
@@ -93,7 +94,7 @@ func GenTree(r *Rng, o TreeOpts) *Tree {
 			name = Pick(r, []string{"admin/", "blog/posts/", "a/"}) + name
 		}
 		g := &Gen{R: r, Prefix: fmt.Sprintf("PG%d", i), vars: append([]gvar{}, dataVars...), ObjBias: o.ObjBias,
-			FailBias: o.FailBias, Comps: t.Comps, WantFP: o.WantFP, Funcs: o.Funcs}
+			FailBias: o.FailBias, Comps: t.Comps, WantFP: o.WantFP, Funcs: o.Funcs, NoBig: o.NoBig}
 		var src string
 		if r.Chance(50) {
 			// page with layout
